@@ -750,6 +750,10 @@ def gen_plan(seed: int, mode: str, scale: int = 1):
             else:
                 newtext = mutate.mutate(er, p.files[p.main], er.randint(1, 3)).replace("@SELF@", p.main).replace("@DIR@", p.name)
             p.files[target] = newtext
+            if er.chance(0.35):
+                # saved by rename / checked out again: the path gets a NEW file (another inode;
+                # with the recycling knob possibly the number of some other deleted file)
+                ops.append({"op": "unlink", "path": p.root + "/" + target})
             ops.append({"op": "write", "path": p.root + "/" + target, "text": newtext})
             # recompile right away, and once more later
             for st in cli_task(p):
@@ -762,7 +766,7 @@ def gen_plan(seed: int, mode: str, scale: int = 1):
             tr = rng.sub("tamper", ntamper)
             p = tr.choice(projects)
             d = tr.choice([p.root + "/out", p.root + "/out", p.root])
-            how = tr.choice(["crlf", "crlf", "cr", "truncate", "empty", "append", "bom", "same_size", "same_crc32", "same_crc32", "same_head_tail", "swap_bytes", "strip_final_newline", "trailing_ws", "touch_future", "touch_past"])
+            how = tr.choice(["crlf", "crlf", "cr", "truncate", "empty", "append", "bom", "same_size", "same_crc32", "same_crc32", "same_head_tail", "swap_bytes", "strip_final_newline", "trailing_ws", "touch_future", "touch_past", "delete", "delete"])
             ops.append({"op": "tamper", "dir": d, "pick": tr.below(16), "how": how, "frac": tr.choice([0, 10, 50, 90, 99])})
             for lang in tr.sample(LANGS, tr.randint(1, 3)):
                 argv = [lang, p.root + "/" + p.main, d]
@@ -789,6 +793,11 @@ def gen_plan(seed: int, mode: str, scale: int = 1):
         ops.append({"op": "cli", "argv": ["py", p.root + "/" + p.main, "out"]})
         ops.append({"op": "chdir", "path": "/w"})
         ops.append({"op": "mkdir", "path": p.root + "/out"})
+    # tuning knob of the simulated world, drawn per run: the file system's preferred block size
+    # = the size of CPython's buffer above the raw file (how many write(2) calls a file takes,
+    # where a torn write can end, how much a kill loses)
+    img["blksize"] = Rng(seed, "env", "blksize").choice([64, 512, 4096, 4096, 4096, 65536])
+    img["recycle_inodes"] = Rng(seed, "env", "recycle").chance(0.5)
     plan = {
         "world": "compiler",
         "mode": mode,
